@@ -119,7 +119,7 @@ func (ex *exampleValidator) validateExampleValueValidAgainstSchema() *Result {
 					if red.HasErrorsOrWarnings() {
 						res.AddWarnings(exampleValueDoesNotValidateMsg(param.Name, param.In))
 						res.Merge(red)
-					} else if red.wantsRedeemOnMerge {
+					} else if red != nil && red.wantsRedeemOnMerge { // nil when this location was skipped as already visited
 						pools.poolOfResults.RedeemResult(red)
 					}
 				}
@@ -204,7 +204,7 @@ func (ex *exampleValidator) validateExampleInResponse(resp *spec.Response, respo
 			// Additional message to make sure the context of the error is not lost
 			res.AddWarnings(exampleValueInDoesNotValidateMsg(operationID, responseName))
 			res.Merge(red)
-		} else if red.wantsRedeemOnMerge {
+		} else if red != nil && red.wantsRedeemOnMerge { // nil when this location was skipped as already visited
 			pools.poolOfResults.RedeemResult(red)
 		}
 	}
